@@ -76,6 +76,35 @@ u_two(uint64_t idx, void *arg)
     vh_sig(0x2000000u | s);
 }
 
+/* the word variant's update step: every 16-bit word from state idx, alone, behind a zero word and in front of
+ * one (a zero word from a non-zero state is where "nothing to add" shortcuts go wrong) */
+static void
+u_wstep(uint64_t idx, void *arg)
+{
+    (void)arg;
+    uint16_t *w1 = vh_arena(2), *w2 = vh_arena(4);
+    uint16_t s = (uint16_t)idx;
+    for (unsigned v = 0; v < 65536; v++) {
+        VH_CASE2(s, v);
+        w1[0] = (uint16_t)v;
+        uint16_t got = ufw_crc16_arc_u16(s, w1, 1);
+        uint16_t exp = ref_crc(s, (const uint8_t *)w1, 2);
+        if (got != exp)
+            vh_fail("word-step", "api=ufw_crc16_arc_u16", "state=%04x word=%04x got=%04x exp=%04x", s, v, got, exp);
+        for (int lead = 0; lead < 2; lead++) {
+            w2[lead] = 0;
+            w2[!lead] = (uint16_t)v;
+            got = ufw_crc16_arc_u16(s, w2, 2);
+            exp = ref_crc(s, (const uint8_t *)w2, 4);
+            if (got != exp)
+                vh_fail("word-step", "api=ufw_crc16_arc_u16", "state=%04x words=%04x,%04x got=%04x exp=%04x", s, w2[0],
+                        w2[1], got, exp);
+        }
+    }
+    VH_COUNTN("word update steps compared", 3 * 65536);
+    vh_sig(0x5000000u | s);
+}
+
 /* random buffers, split at every position; word variant */
 static void
 u_buf(uint64_t idx, void *arg)
@@ -125,11 +154,17 @@ u_buf(uint64_t idx, void *arg)
     for (size_t n = 0; n <= 64; n++) {
         vh_arena_reset();
         uint16_t *w = vh_arena(n * 2);
+        /* content: random, all zero, all ones, mostly zero words, zero words in front / behind */
+        int wmode = (int)vh_below(&r, 6);
         for (size_t i = 0; i < n; i++)
-            w[i] = (uint16_t)vh_rand(&r);
+            w[i] = wmode == 1 ? 0 : wmode == 2 ? 0xffff : wmode == 3 ? (vh_chance(&r, 1, 4) ? (uint16_t)vh_rand(&r) : 0)
+                   : wmode == 4 ? (i < n / 2 ? 0 : (uint16_t)vh_rand(&r))
+                   : wmode == 5 ? (i >= n / 2 ? 0 : (uint16_t)vh_rand(&r)) : (uint16_t)vh_rand(&r);
         uint16_t init = (uint16_t)vh_rand(&r);
         if (n % 3 == 0)
             init = 0;
+        if (wmode && init)
+            VH_COUNT("word buffers with zero words from a non-zero state");
         VH_CASE4(idx, 1000, n, init);
         uint16_t exp = ref_crc(init, (const uint8_t *)w, n * 2);
         uint16_t got = ufw_crc16_arc_u16(init, w, n);
@@ -144,6 +179,14 @@ u_buf(uint64_t idx, void *arg)
             uint16_t g2 = ufw_buffer_crc16_arc_u16(w, n);
             if (g2 != exp)
                 vh_fail("word", "api=ufw_buffer_crc16_arc_u16", "words=%zu got=%04x exp=%04x", n, g2, exp);
+        }
+        /* continuation: the checksum of the first k words continued over the rest */
+        for (size_t cut = 0; cut <= n; cut++) {
+            uint16_t a = ufw_crc16_arc_u16(init, w, cut);
+            uint16_t c = ufw_crc16_arc_u16(a, w + cut, n - cut);
+            if (c != exp)
+                vh_fail("word-split", "api=ufw_crc16_arc_u16", "words=%zu cut=%zu init=%04x got=%04x exp=%04x", n, cut, init,
+                        c, exp);
         }
         VH_COUNT("word buffers compared");
         vh_sig(0x4000000u ^ ((uint64_t)n << 32));
@@ -225,6 +268,20 @@ harness_run(void)
         for (int i = 0; i < 63; i++)
             vh_unit("two", vh_below(&r, 65536), u_two, NULL);
     }
+    if (vh_tier) {
+        for (uint64_t i = 0; i < 65536; i += (vh_light ? 64 : 4))
+            vh_unit("wstep", i, u_wstep, NULL);
+    } else {
+        vh_rng r;
+        vh_unit_rng(&r, "wstepsel", 0);
+        vh_unit("wstep", 0, u_wstep, NULL);
+        vh_unit("wstep", 1, u_wstep, NULL);
+        vh_unit("wstep", 0xffff, u_wstep, NULL);
+        for (int i = 0; i < 29; i++)
+            vh_unit("wstep", vh_below(&r, 65536), u_wstep, NULL);
+    }
+    vh_require("word update steps compared");
+    vh_require("word buffers with zero words from a non-zero state");
     uint64_t nb = vh_tier ? 4000 : 200;
     for (uint64_t i = 0; i < nb; i++)
         vh_unit("buf", i, u_buf, NULL);
